@@ -25,7 +25,7 @@ OUTSIDE = ["iterative solvers with an initial guess (CG) and the ARPACK caches o
 ASSUMPTIONS = ["float64 as exact reals", "linear solves: exact factor models / unique explicit solution, so that both networks "
                "produce comparable terms ('to solver tolerance' becomes exact equality)",
                "matrices non-singular in every cycle"]
-ITEM_TIMEOUT = {"quick": 110, "thorough": 600}
+ITEM_TIMEOUT = {"quick": 240, "thorough": 600}
 
 HIST = {
     "two-cycles": ["set1", "resp", "seed", "sens", "reset", "set2", "resp", "seed", "sens"],
